@@ -410,8 +410,10 @@ def _run_real_events(flavour: str, script):
 
         mt = loop.create_task(main())
         loop.run_until(10.0)
-        if mt.done() and mt.exception() is not None:
-            raise mt.exception()
+        exc = mt.exception() if mt.done() and not mt.cancelled() else None
+        loop.shutdown()
+        if exc is not None:
+            raise exc
     else:
         import trio
 
